@@ -79,13 +79,13 @@ class IoWorld(World):
             mix["csv"] = 2
         return {"nsteps": r.choice([5, 10, 20, 40, 60]), "sessions": r.choice([1, 1, 2, 3]),
                 "fault_rate": rate, "fault_kinds": kinds, "formats": fmts, "mix": mix,
-                "clock0": r.randrange(0, 4102444800), "max_obs": r.choice([1, 2, 4, 12]),
+                "clock0": r.randrange(0, 4102444800), "max_obs": r.choice([1, 2, 4, 12] * 6 + [300, 600]),
                 "shared": r.random() < 0.4, "bias_after_fault": r.random() < 0.7}
 
     @classmethod
     def deepen(cls, cfg, r):
         cfg["nsteps"] = min(cfg["nsteps"] * 3, 180)
-        cfg["max_obs"] = r.choice([40, 100])
+        cfg["max_obs"] = r.choice([40, 100, 300, 1100])
         cfg["sessions"] = 3
 
     # ------------------------------------------------------------------- setup
